@@ -199,6 +199,13 @@ fn tiny_cases(tier: Tier) -> Vec<Case> {
         engine.condition.set_beta(0.3);
         out.push(Case { name: format!("{} labels={} cond=beta=0.3", cfg.describe(), nl), engine, labels: corpus[41..41 + nl].to_vec() });
     }
+    // a muted engine (a finite volume so low that the linear gain underflows to exactly 0): frames are still frames
+    {
+        let cfg = GenCfg { nstate: 1, fperiod: 4, wset: 1, ..GenCfg::default() };
+        let mut engine = engine_from_bytes(&cfg.bytes()).expect("generated voice");
+        engine.condition.set_volume(-1.0e6);
+        out.push(Case { name: format!("{} labels=2 cond=volume=-1e6", cfg.describe()), engine, labels: corpus[41..43].to_vec() });
+    }
     if tier == Tier::Thorough {
         let cfg = GenCfg { nstate: 3, fperiod: 2, ns: 2, gv: true, ..GenCfg::default() };
         let mut engine = engine_from_bytes(&cfg.bytes()).unwrap();
